@@ -78,47 +78,10 @@ pub proof fn lemma_phase_b_canon(p: PurlParts, ns_segs: Seq<Seq<char>>, sub_segs
     requires norm_parts(p, ns_segs, sub_segs)
     ensures phase_b(rest_of(p)) == Ok::<PhaseB, ParseError>(PhaseB { ns: p.namespace@, name: p.name@, version: p.version@ })
 {
-    lemma_lits();
-    let ens = enc(SetId::Path, p.namespace@);
-    let en = enc(SetId::Segment, p.name@);
-    let ev = enc(SetId::Path, p.version@);
-    let nsp = opt_part(p.namespace@.len() > 0, ens + seq!['/']);
-    let r1 = nsp + en;
-    let r = rest_of(p);
-    // '@' : only the version separator
-    lemma_enc_excludes(SetId::Path, p.namespace@, '@');
-    lemma_enc_excludes(SetId::Segment, p.name@, '@');
-    lemma_enc_excludes(SetId::Path, p.version@, '@');
-    lemma_single_excludes('/', '@');
-    lemma_has_char_concat(ens, seq!['/'], '@');
-    lemma_has_char_concat(nsp, en, '@');
-    assert(!has_char(Seq::<char>::empty(), '@'));
-    assert(!has_char(r1, '@'));
-    if p.version@.len() > 0 {
-        assert(r =~= r1 + seq!['@'] + ev);
-        lemma_rsplit_join(r1, ev, '@');
-        assert(r.subrange(0, r1.len() as int) =~= r1);
-        assert(r.subrange(r1.len() as int + 1, r.len() as int) =~= ev);
-        axiom_dec_enc(SetId::Path, p.version@);
-    } else {
-        assert(r =~= r1);
-        lemma_last_index(r1, '@');
-        assert(p.version@ =~= Seq::<char>::empty());
-    }
-    // '/' : the name never contains one
-    lemma_enc_excludes(SetId::Segment, p.name@, '/');
-    axiom_dec_enc(SetId::Segment, p.name@);
-    if p.namespace@.len() > 0 {
-        assert(r1 =~= ens + seq!['/'] + en);
-        lemma_rsplit_join(ens, en, '/');
-        assert(r1.subrange(0, ens.len() as int) =~= ens);
-        assert(r1.subrange(ens.len() as int + 1, r1.len() as int) =~= en);
-        lemma_ns_roundtrip(ns_segs);
-    } else {
-        assert(r1 =~= en);
-        lemma_last_index(en, '/');
-        assert(p.namespace@ =~= Seq::<char>::empty());
-    }
+    // the general statement (part 6) specialised: for clean segments nothing is dropped
+    lemma_phase_b_canon_gen(p);
+    if p.namespace@.len() > 0 { lemma_sig_ns_normal(ns_segs); assert(p.namespace@ == join_segs(ns_segs)); }
+    else { lemma_sig_empty(); assert(p.namespace@ =~= Seq::<char>::empty()); }
 }
 
 pub open spec fn c_l2(ty: Seq<char>, p: PurlParts) -> Seq<char> { ty + seq!['/'] + rest_of(p) }
